@@ -600,6 +600,64 @@ class FileRecords(Codec):
         return self.fields(E, self.view(E, 'old_'))
 
 
+class DevInfoRsp(Codec):
+    """43/14 response (6.21): MEI type 0E, read code, conformity, more follows, next object id, number of objects, then per object id, length, value.
+    BOUNDED in the number of objects (0..MAXREC, decode loop unrolled); ids ascending, values of any length that fits.  How the server pages its
+    objects (more follows / next object id as functions of the identity) is C20; here more/next are plain fields for decode, and 0 for encode."""
+    direction, cls, fc, sub = 'rsp', MEI + 'ReadDeviceInformationResponse', 43, 14
+    bounded = True
+
+    def __init__(self):
+        self.unroll = {(self.cls + '.decode', 0): MAXREC + 1, (self.cls + '.calculateRtuFrameSize', 0): MAXREC + 1}
+
+    def view(self, E, pfx=''):
+        k = E.choice(pfx + 'objects', list(range(MAXREC + 1)))
+        free = getattr(self, 'tag', '') in ('dec', 'acc')          # decode takes more/next from the wire; encode computes them (C20)
+        v = {'read_code': E.int(pfx + 'read_code', 1, 5), 'conformity': u8(E, pfx + 'conformity'),
+             'more_follows': (E.choice(pfx + 'more', [0x00, 0xFF]) if free else 0x00), 'next_object_id': (u8(E, pfx + 'next') if free else 0), 'n': k}
+        total = 0
+        for i in range(k):
+            v['id%d' % i] = u8(E, pfx + 'id%d' % i)
+            if i:
+                E.assume(v['id%d' % (i - 1)] < v['id%d' % i])
+            d = E.bytes(pfx + 'val%d' % i, 1, 244)
+            v['val%d' % i] = d
+            total = total + 2 + L.length(d)
+        E.assume(total <= 246)
+        v['_total'] = total
+        return v
+
+    def wire(self, E, v):
+        parts = [[0x0E, v['read_code'], v['conformity'], v['more_follows'], v['next_object_id'], v['n']]]
+        for i in range(v['n']):
+            parts += [[v['id%d' % i], L.length(v['val%d' % i])], v['val%d' % i]]
+        return L.concat(*parts)
+
+    def fields(self, E, v):
+        info = {}
+        for i in range(v['n']):
+            info[v['id%d' % i]] = E.as_bytes(L.tolist(v['val%d' % i]))
+        return {'sub_function_code': 0x0E, 'read_code': v['read_code'], 'information': info, 'number_of_objects': v['n'], 'conformity': v['conformity'],
+                'next_object_id': v['next_object_id'], 'more_follows': v['more_follows'], 'space_left': 247 - v['_total']}
+
+    def read(self, E, obj):
+        info = E.get(obj, 'information')
+        items = list(info.items())
+        out = {'read_code': E.get(obj, 'read_code'), 'conformity': E.get(obj, 'conformity'), 'more_follows': E.get(obj, 'more_follows'),
+               'next_object_id': E.get(obj, 'next_object_id'), 'n': len(items)}
+        for i in range(MAXREC + 1):
+            out['id%d' % i] = items[i][0] if i < len(items) else None
+            out['val%d' % i] = items[i][1] if i < len(items) else None
+        return out
+
+    def check_same(self, E, label, got, want, kind='dec'):
+        want = {k: x for k, x in want.items() if k != '_total'}
+        Codec.check_same(self, E, label, got, want, kind)
+
+    def prior(self, E):
+        return self.fields(E, self.view(E, 'old_'))
+
+
 def all_codecs():
     cs = [
         ReadReq(BR + 'ReadCoilsRequest', 1), ReadReq(BR + 'ReadDiscreteInputsRequest', 2),
@@ -618,7 +676,7 @@ def all_codecs():
         Empty(OT + 'GetCommEventLogRequest', 12), EventLogRsp(),
         Empty(OT + 'ReportSlaveIdRequest', 17), SlaveIdRsp(),
         Fixed(FM + 'ReadFifoQueueRequest', 24, 'req', 'H', ['address']), FifoRsp(),
-        DevInfoReq(), ExceptionRsp(),
+        DevInfoReq(), DevInfoRsp(), ExceptionRsp(),
         FileRecords(FM + 'ReadFileRecordRequest', 20, 'req', 'read-req'), FileRecords(FM + 'ReadFileRecordResponse', 20, 'rsp', 'read-rsp'),
         FileRecords(FM + 'WriteFileRecordRequest', 21, 'req', 'write'), FileRecords(FM + 'WriteFileRecordResponse', 21, 'rsp', 'write'),
     ]
